@@ -164,6 +164,9 @@ func (p *Prog) loadSpecSigs() {
 			if sd, ok := p.specs[f.Name()]; ok && sd.Raw != "" {
 				continue // the raw SMT definition wins; the Go twin is for native replay
 			}
+			if specIntrinsics[f.Name()] {
+				continue // mapped to the verifier's model of maps
+			}
 			p.specSig(f)
 		}
 	}
@@ -553,6 +556,7 @@ func (p *Prog) verifyFunc(name string) *Exec {
 	fr := ex.newFrame(fn, TTrue, "")
 	fr.top = true
 	fr.cur = TTrue
+	ex.curBlk = -1
 	var args []*GVal
 	for i, prm := range fn.Params {
 		s := p.w.SortOf(prm.Type())
@@ -604,6 +608,7 @@ func (p *Prog) verifyFunc(name string) *Exec {
 	for ri, r := range fr.rets {
 		ex.st = r.st
 		fr.cur = r.cond
+		ex.curBlk = r.blk
 		vars := map[string]*GVal{}
 		for k, v := range ex.entryParams {
 			vars[k] = v
